@@ -3,6 +3,7 @@
 from hypothesis import strategies as st
 
 from ..cacheops import DFLT, POLICIES, Runner, value_specs
+from ..common import HarnessError, short
 from ..engine import SubCheck
 from . import c03
 
@@ -164,4 +165,128 @@ class FanoutExpireUnderContention(SubCheck):
             raise Violation('C04/fanout-expire-incomplete/' + v.signature.split('/', 1)[1], v.detail)
 
 
-SUBCHECKS = [Histories(), FanoutExpireUnderContention()]
+class PagedRemovalUnderContention(SubCheck):
+    """expire() / evict(tag) work through more than one page of 100 rows, releasing the write lock between pages, while a
+    second client with its own handle rewrites some of the expired (tagged) keys under a generated schedule.  Whatever the
+    interleaving: a key the second client wrote successfully is alive afterwards with that value (written before the
+    remover reached it, it is no longer expired/tagged; written after, it is new), every expired (tagged) key nobody
+    rewrote is gone, and the untouched live items survive."""
+
+    name = 'paged_removal_under_contention'
+
+    def examples(self, tier):
+        return 40 if tier == 'quick' else 1500
+
+    def strategy(self, tier):
+        @st.composite
+        def case(draw):
+            n = draw(st.sampled_from([101, 120, 150, 199, 201, 230]))
+            rewrites = draw(st.lists(st.tuples(st.sampled_from(['set', 'add', 'incr', 'setitem']), st.integers(0, n - 1), st.booleans()), min_size=1, max_size=4, unique_by=lambda t: t[1]))
+            # the remover gets through a generated number of its statements, then the writer runs, then the remover goes on
+            schedule = [(0, draw(st.integers(1, 12))), (1, draw(st.sampled_from([3, 6, 9, 14, 30]))), (0, draw(st.integers(1, 12))), (1, 60)]
+            schedule += draw(st.lists(st.tuples(st.integers(0, 1), st.integers(1, 12)), max_size=6))
+            return {'n': n, 'remover': draw(st.sampled_from(['expire', 'expire', 'evict'])), 'rewrites': rewrites, 'file': draw(st.booleans()), 'schedule': schedule}
+
+        return case()
+
+    def execute(self, case, env):
+        import diskcache
+
+        from ..common import Violation
+        from ..conc import fmt, run_scheduled
+
+        n = case['n']
+        keys = ['g%03d' % i for i in range(n)]
+        old = (lambda i: bytes([i % 251]) * 80) if case['file'] else (lambda i: 'old-%d' % i)
+
+        def open_clients(path):
+            a = diskcache.Cache(path, timeout=0, disk_min_file_size=64, cull_limit=0)
+            for i, k in enumerate(keys):
+                a.set(k, old(i), expire=1.0, tag='t')
+            a.set('live-1', 'L1')
+            a.set('live-2', b'L' * 100, expire=10**6)
+            if case['remover'] == 'expire':
+                env.cache['seams'].clock.advance(100.0)
+            b = diskcache.Cache(path, timeout=0)
+            return [a, b], [a, b]
+
+        def do_op(cache, op):
+            try:
+                if op[0] == 'expire':
+                    return ('ok', cache.expire(retry=True))
+                if op[0] == 'evict':
+                    return ('ok', cache.evict('t', retry=True))
+                if op[0] == 'get':
+                    return ('ok', cache.get(op[1], 'MISS'))
+                if op[0] == 'len':
+                    return ('ok', len(cache))
+                k = keys[op[1]]
+                v = ('new-%d' % op[1]) if not op[2] else bytes([255 - op[1] % 200]) * 90
+                if op[0] == 'set':
+                    return ('ok', cache.set(k, v, retry=True))
+                if op[0] == 'setitem':
+                    cache[k] = v
+                    return ('ok', True)
+                if op[0] == 'add':
+                    return ('ok', cache.add(k, v, retry=True))
+                if op[0] == 'incr':
+                    return ('ok', cache.incr(k, 5, retry=True))
+                if op[0] == 'get':
+                    return ('ok', cache.get(op[1], 'MISS'))
+                if op[0] == 'len':
+                    return ('ok', len(cache))
+            except Exception as exc:
+                return ('exc', type(exc).__name__)
+            raise HarnessError('unknown op %r' % (op,))
+
+        # (a live tagged text value cannot be incremented: under evict() the increment becomes a plain set)
+        rewrites = [(('set' if r[0] == 'incr' and case['remover'] == 'evict' else r[0]), r[1], r[2]) for r in case['rewrites']]
+        progs = [[(case['remover'],)], rewrites]
+        finals = [('get', k) for k in keys] + [('get', 'live-1'), ('get', 'live-2'), ('len',)]
+        calls, sched = run_scheduled(env, progs, case['schedule'], open_clients, do_op, 'C04', warm=lambda c: c._sql, final_ops=finals, max_steps=20000)
+        if sched.limit_hit:
+            return {'nontrivial': False, 'classes': ['step-limit']}
+        remover = [c for c in calls if c.client == 0][0]
+        writes = [c for c in calls if c.client == 1]
+        final = {c.op[1]: c.result for c in calls if c.client == -1 and c.op[0] == 'get'}
+        what = '%s() over %d %s items' % (case['remover'], n, 'expired' if case['remover'] == 'expire' else 'tagged')
+        for c in [remover] + writes:
+            if c.result[0] != 'ok':
+                raise Violation('C04/paged-removal/raised/%s' % c.result[1], '%s: call %r raised\n%s' % (what, c, fmt(calls[:8])))
+        expect = {}
+        for c in writes:
+            kind, i, big = c.op
+            k = keys[i]
+            v = ('new-%d' % i) if not big else bytes([255 - i % 200]) * 90
+            if kind == 'incr':
+                expect[k] = 5  # an expired counter restarts at the default
+            elif kind == 'add':
+                if case['remover'] == 'expire':
+                    if c.result != ('ok', True):
+                        raise Violation('C04/paged-removal/add-refused', '%s: add over the expired key %r returned %r' % (what, k, c.result))
+                    expect[k] = v
+                elif c.result == ('ok', True):
+                    expect[k] = v  # the tagged item had already been evicted: the add created a new untagged one
+                else:
+                    expect[k] = 'GONE'  # refused: the tagged item was still there, and the eviction then takes it
+            else:
+                expect[k] = v
+        for k in keys:
+            got = final[k]
+            want = expect.get(k, 'GONE')
+            if want == 'GONE':
+                if got != ('ok', 'MISS'):
+                    raise Violation('C04/paged-removal/left-behind', '%s: key %r nobody rewrote still reads %r afterwards\nwrites %r' % (what, k, short(got), writes))
+            elif got != ('ok', want):
+                raise Violation(
+                    'C04/paged-removal/live-item-removed',
+                    '%s while another client rewrote %r: afterwards it reads %s, expected %s\nremover %r\nwrites %r\nsteps %r'
+                    % (what, k, short(got), short(want), remover, writes, sched.trace[:60]),
+                )
+        if final['live-1'] != ('ok', 'L1') or final['live-2'] != ('ok', b'L' * 100):
+            raise Violation('C04/paged-removal/bystander-removed', '%s removed an item that was neither expired nor tagged: %r %r' % (what, final['live-1'], short(final['live-2'])))
+        mid = any(remover.inv < w.inv and w.res < remover.res for w in writes)
+        return {'nontrivial': mid, 'classes': ['remover=' + case['remover']] + (['write-between-pages'] if mid else [])}
+
+
+SUBCHECKS = [Histories(), FanoutExpireUnderContention(), PagedRemovalUnderContention()]
